@@ -144,7 +144,7 @@ func VerifC20_AcceptNegotiationInterleaved() {
 	ok := true
 	reps := verifNativeRepeat() // 1 in the executor (which explores the preemption points instead)
 	if reps > 1 {
-		reps *= 40
+		reps *= 1500
 	}
 	for rep := 0; rep < reps && ok; rep++ {
 		verifRespRoundTrip(accepts[wi], "", "") // an earlier request
